@@ -92,7 +92,7 @@ def main(tier, seed):
     R.assumptions += ['tokens = atoms (prefix+name), brackets, separators, connecters, copulas, punctuation, stamp brackets / kind marker / number, truth and budget brackets, numbers and separators; no space is inserted inside an atom',
                       'spacing patterns: none, 1 or 2 spaces at every boundary; thorough adds k in {1,3} spaces at each single boundary for one shape of every syntactic class; lexical pipeline also tab/newline/U+3000 at every boundary',
                       'names: 1 symbolic well-formed char each (as C01)']
-    shapes = c01.shape_list(tier)
+    shapes = [x for x in c01.shape_list(tier) if not x[0].startswith(('sent-atom-q/', 'task-atom-q/'))]     # the round-5 quest-after-atom shapes are C01's; C09's shape set is unchanged
     gen_ = [x for x in shapes if x[0].startswith('gen/')]
     shapes = [x for x in shapes if not x[0].startswith('gen/')] + gen_[:(6 if quick else 30)]          # generated nested shapes: a bounded share (they have many tokens)
     if quick:
